@@ -1205,7 +1205,7 @@ package runtime
 //@   assert_before_call sendResumeValues: old(t.status) == ThreadOK && $t == old(t.caller) && old(t.caller.status) == ThreadOK && t.status == ThreadSuspended && t.caller == nil && $err == nil && $exception == nil
 
 //@ func (*Thread).end
-//@   prop C09 C05
+//@   prop C09 C05 C10
 //@   arith int
 //@   norte
 //@   nocover
@@ -1214,6 +1214,8 @@ package runtime
 //@   exits any
 //@   assert_before_call sendResumeValues: old(t.status) == ThreadOK && $t == old(t.caller) && (exception != nil ==> $exception == exception)   // (a thread that ends normally may still be interrupted while closing its pending variables: that exception is handed over instead)
 //@   assert_before_call ReleaseBytes: ghost(wake) == 0   // the thread does not touch the runtime's accounting after handing control back
+//@   capture closePending as closed
+//@   assert_before_call sendResumeValues: exception == nil ==> $err == closed0 && $exception == closed1   // (C10) an error raised by a __close handler of the ending coroutine replaces the error in flight: what is handed over is what closing returned
 //@   assert_before_call sendResumeValues: t.closeErr == $err   // (C09) a later coroutine.close of the dead coroutine reports the error that was handed over, handlers' errors included
 //@   assert_before_call closePending: exception == nil   // (C05) a coroutine that ends because its context was terminated runs no __close handler: the termination cannot be followed by more Lua code of that context
 //@   ensures ghost(wake) == 1
